@@ -240,7 +240,7 @@ func checkAdminPredicates(c *km.Ctx, s *km.Sem) {
 	// --- IsAdminUserAndU2F
 	if fn := c.MustFunc("R-C08-2", "cmd/keymasterd", "(*RuntimeState).IsAdminUserAndU2F"); fn != nil {
 		for _, rc := range s.RetCases(fn) {
-			v := rc.Ret.Results[0]
+			v := rc.Results[0]
 			ok, desc := conjOfAdminAndU2F(c, s, fn, v, u2f)
 			r.Add("R-C08-2", km.FuncName(fn), "result = IsAdminUser(user) ∧ level has U2F bit", posOf(c, rc.Ret), "true only if IsAdminUser(user param) is true and (level param & AuthTypeU2F) is set", desc, ok)
 		}
@@ -263,7 +263,7 @@ func checkAdminPredicates(c *km.Ctx, s *km.Sem) {
 			return f.Op == token.NEQ && km.IsNilConst(f.Y) && cl != nil && idx == 1 && km.CalleeFull(cl.Common()) == RS+"_IsAdminUser"
 		}}
 		for _, rc := range s.RetCases(fn) {
-			v := km.Unwrap(rc.Ret.Results[0])
+			v := km.Unwrap(rc.Results[0])
 			cl, idx := callRes(v)
 			switch {
 			case cl != nil && km.CalleeFull(cl.Common()) == getName && idx == 0:
@@ -317,7 +317,7 @@ func checkAdminPredicates(c *km.Ctx, s *km.Sem) {
 	if fn := c.MustFunc("R-C08-2", "keymasterd/admincache", "(*Cache).isValid"); fn != nil {
 		n := 0
 		for _, rc := range s.RetCases(fn) {
-			v := km.Unwrap(rc.Ret.Results[0])
+			v := km.Unwrap(rc.Results[0])
 			if cst, ok := v.(*ssa.Const); ok {
 				n++
 				r.Add("R-C08-2", km.FuncName(fn), "constant result", posOf(c, rc.Ret), "constant results are false", km.ValStr(cst), km.ValStr(cst) == "false")
@@ -340,7 +340,7 @@ func checkAdminPredicates(c *km.Ctx, s *km.Sem) {
 	// --- _IsAdminUser: true only from a match
 	if fn := c.MustFunc("R-C08-2", "cmd/keymasterd", "(*RuntimeState)._IsAdminUser"); fn != nil {
 		for _, rc := range s.RetCases(fn) {
-			v := km.Unwrap(rc.Ret.Results[0])
+			v := km.Unwrap(rc.Results[0])
 			cst, ok := v.(*ssa.Const)
 			if !ok {
 				r.Add("R-C08-2", km.FuncName(fn), "non-constant result", posOf(c, rc.Ret), "results are constants chosen by match edges", km.ValStr(v), false)
@@ -500,7 +500,7 @@ func checkRoleMinting(c *km.Ctx, s *km.Sem) {
 	}}
 	autoErrNil := primErrNil("isAutomationUser err==nil", RS+"isAutomationUser", 1)
 	for _, rc := range s.RetCases(parse) {
-		if km.IsNilConst(rc.Ret.Results[0]) {
+		if km.IsNilConst(rc.Results[0]) {
 			continue
 		}
 		ok := rc.State.All(func(k km.Conj) bool { return s.Holds(k, autoOK) && s.Holds(k, autoErrNil) })
